@@ -419,7 +419,7 @@ def k_flags(rep):
 
 
 # ------------------------------------------------------------------ replay oracle: real blind + priorized runs
-def make_field(d, nsrc=25, seed=1):
+def make_field(d, nsrc=25, seed=1, beam=(4.0, 4.0)):
     """noise-free image of isolated Gaussians on a grid (real WCS); returns (filename, truth list)"""
     from astropy.io import fits
     wh = loader.real('wcs_helpers')
@@ -436,7 +436,7 @@ def make_field(d, nsrc=25, seed=1):
     hdr['CRPIX1'] = hdr['CRPIX2'] = N / 2
     scale = 10.0 / 3600
     hdr['CDELT1'], hdr['CDELT2'] = -scale, scale
-    hdr['BMAJ'], hdr['BMIN'], hdr['BPA'] = 4 * scale, 4 * scale, 0.0
+    hdr['BMAJ'], hdr['BMIN'], hdr['BPA'] = beam[0] * scale, beam[1] * scale, 0.0
     x, y = real_np.mgrid[0:N, 0:N].astype(float)
     img = real_np.zeros((N, N))
     truth = []
